@@ -551,7 +551,7 @@ Proof.
     cbn [List.length Z.of_nat Pos.of_succ_nat Pos.succ Z.ltb Z.compare Z.mul Z.add Pos.mul Pos.add orb Pos.compare Pos.compare_cont].
     change (Z.to_nat 1) with 1%nat. cbn [lincom_terms]. rewrite Hm, Hb, Hin.
     cbn [existsb fst snd orb]. fold comp. rewrite orb_false_r. reflexivity.
-  - unfold entry_items, lincom_items, in_word; cbn [entry_name List.length]. rewrite Hs.
+  - unfold entry_items, in_word; cbn [lincom_items entry_name List.length]. unfold in_word. rewrite Hs.
     apply Forall_cons; [head_ok Hn|].
     apply Forall_cons; [apply (item_ok_kw c "LINCOM" 2); (reflexivity || discriminate)|].
     apply Forall_cons; [split; [apply word_ok_raw; [apply plainb_plain; reflexivity | discriminate] | apply sep_ok_sp]|].
@@ -563,6 +563,6 @@ Proof.
     apply Forall_cons; [split; [apply G; assumption | apply sep_ok_sp]|].
     apply Forall_cons; [split; [apply G; assumption | apply sep_ok_nl]|].
     constructor.
-  - unfold items_toks. unfold entry_items, lincom_items, in_word; cbn [entry_name List.length map fst]. rewrite Hs.
+  - unfold items_toks. unfold entry_items; cbn [lincom_items entry_name List.length map fst]. unfold in_word. rewrite Hs.
     unfold word_tok at 1 2 3 4. cbn [map piece_tok List.concat]. rewrite ?app_nil_r. reflexivity.
 Qed.
